@@ -295,6 +295,12 @@ func CheckC05(run *evid.Run) {
 				if p == nil {
 					continue
 				}
+				if r != s.R {
+					// the step worked on another replica: this one must be exactly as it was
+					if df := obsEqual(p, o); df != "" {
+						run.Violate("C05/other-instance-altered", det("codec", h.Codec, "op", s.Op), wit(), "r%d changed (%s) although the step worked on r%d only: %s", r, df, s.R, where)
+					}
+				}
 				if o.Len < p.Len {
 					run.Violate("C05/len-decreased", det("codec", h.Codec, "op", s.Op), wit(), "Len of r%d went %d -> %d at %s", r, p.Len, o.Len, where)
 				}
